@@ -1092,6 +1092,10 @@ func Gen(t *rapid.T) Case {
 			} else {
 				l.U = []int{rapid.IntRange(0, len(c.Units)-1).Draw(t, "oneunit")}
 			}
+			if rapid.IntRange(0, 5).Draw(t, "repeatunit") == 0 {
+				// one line may report a unit twice; both measurements count
+				l.U = append(l.U, l.U[rapid.IntRange(0, len(l.U)-1).Draw(t, "repeatwhich")])
+			}
 			for range l.U {
 				l.V = append(l.V, genValue(t, valKind))
 			}
